@@ -391,7 +391,7 @@ def nul_variant_spec(rng, tmpl, spec):
 def run(ctx):
     rng = ctx.rng
     templates = gen_msg.all_templates()
-    per_template = ctx.pick(2, 8)
+    per_template = ctx.pick(2, 16)
     for ti, tmpl in enumerate(templates):
         for k in range(per_template):
             if ctx.quick and not ctx.mine(ti * per_template + k):
